@@ -178,6 +178,9 @@ class Interp:
         # "whatever an earlier loop iteration left there" (or an UnboundLocalError)
         self.top_locals = {n.id for n in ast.walk(fn) if isinstance(n, ast.Name) and isinstance(n.ctx, ast.Store)}
         self.cur_class = None
+        origin = getattr(fn, "_vt_qual", None)     # set by the expander (vt/expand.py) on the copies it hands out
+        if origin is not None and "." in origin:
+            self.cur_class = origin.rsplit(".", 1)[0]
         for q, nodes in self.mod.defs.items():
             if any(x is fn for x in nodes) and "." in q:
                 self.cur_class = q.rsplit(".", 1)[0]
@@ -979,7 +982,7 @@ class _EvalBuilder(_Builder):
         if (len(i.inline_stack) if transparent else i.depth) >= i.max_depth:
             return None
         mod, fn = tgt
-        if transparent and (id(fn) in i.inline_stack or fn is getattr(i, "top_fn", None)):
+        if transparent and (id(fn) in i.inline_stack or fn is getattr(i, "top_fn", None) or getattr(fn, "_vt_origin", fn) is getattr(getattr(i, "top_fn", None), "_vt_origin", None)):
             return None
         params = [p.arg for p in fn.args.posonlyargs + fn.args.args]
         is_method = bool(params) and params[0] in ("self", "cls") and s[1][0] == "a"
